@@ -32,8 +32,12 @@ CONSTANTS
     Scen2,         \* scenarios of a second run() on the same Spinner; {NoScen} = single run
     ClearChoices,  \* subset of BOOLEAN: is clear_junk() called between the two runs
     Installs,      \* subset of BOOLEAN: does reactor.run() install its own signal handlers
-    ResetsResult   \* TRUE = "asRequired": run() starts from unset result fields;
-                   \* FALSE = "asCoded": _success/_failure survive from the previous run
+    ResetsResult,  \* TRUE = "asRequired": run() starts from unset result fields;
+                   \* FALSE = the code before 52cf306: _success/_failure survive from the previous run
+    LateIgnored    \* TRUE = "asRequired": once the run is over (timed out or reactor stopped) nothing that
+                   \* still fires in the same reactor iteration changes its result;
+                   \* FALSE = "asCoded": a stop request does not end the run for _got_success /
+                   \* _got_failure / _timed_out, which still record what arrives later in the batch
 
 NoStop == 99       \* stopAt value meaning "no stop request"; also plays infinity
 MaxAt  == 8
@@ -48,7 +52,11 @@ MaxAt  == 8
 \*   sel    number of selectables f registers (0..1)
 \*   stopAt delay after which somebody calls reactor.stop() (NoStop: nobody does)
 \*   reenter  f calls spinner.run() itself (and records what that raised)
-NoScen == [k |-> "none", d |-> 0, v |-> "-", T |-> 0, extra |-> {}, sel |-> 0, stopAt |-> NoStop, reenter |-> FALSE]
+\*   busyAt, busyDt  a slow callback: a delayed call due busyAt after the start that keeps the reactor thread
+\*          busy for busyDt time units (NoStop: none), so that everything due meanwhile is fired back to back,
+\*          in time order, in ONE reactor iteration - also what is due after the call that crashed the reactor
+NoScen == [k |-> "none", d |-> 0, v |-> "-", T |-> 0, extra |-> {}, sel |-> 0, stopAt |-> NoStop, reenter |-> FALSE,
+           busyAt |-> NoStop, busyDt |-> 0]
 
 Sig == {"INT", "TERM", "CHLD"}
 
@@ -95,7 +103,9 @@ Min(S) == CHOOSE x \in S : \A y \in S : x <= y
 Cur == scn[run]
 
 -----------------------------------------------------------------------------
-(* MEANING: the outcome classes the property allows for a scenario            *)
+(* MEANING: the outcome classes the property allows for a scenario: decided    *)
+(* by which of "f's result", "timeout", "stop request" is due FIRST, whatever  *)
+(* else the reactor fires later in the same iteration (busy reactor)           *)
 
 FnTime(s) == CASE s.k \in {"ret", "raise", "dnowok", "dnowerr"} -> 0
                [] s.k \in {"dfire", "dfail"} -> s.d
@@ -183,8 +193,10 @@ RunFunction ==
            xs == SelectSeq([i \in 1..MaxAt |-> i], LAMBDA i : i \in s.extra)
            c1 == calls \o [i \in 1..Len(xs) |-> [run |-> run, lab |-> "x" \o ToString(xs[i]),
                                                   at |-> now + xs[i], what |-> "noop"]]
-           c2 == IF s.stopAt = NoStop THEN c1
-                 ELSE Append(c1, [run |-> run, lab |-> "stop", at |-> now + s.stopAt, what |-> "stop"])
+           c1b == IF s.busyAt = NoStop THEN c1
+                  ELSE Append(c1, [run |-> run, lab |-> "busy", at |-> now + s.busyAt, what |-> "busy"])
+           c2 == IF s.stopAt = NoStop THEN c1b
+                 ELSE Append(c1b, [run |-> run, lab |-> "stop", at |-> now + s.stopAt, what |-> "stop"])
            sync == s.k \in {"ret", "raise", "dnowok", "dnowerr"}
            can  == toCall = "pending"
        IN /\ readers' = readers \cup {<<run, "sel">> : x \in 1..s.sel}
@@ -216,20 +228,26 @@ Tick ==
     /\ UNCHANGED <<scn, clr, inst, run, pc, running, readers, stopIs, sigs, success, failure, spinning, junk,
                    toCall, inRun, saved, out, inner, fired, left, entry, hist>>
 
-\* fire the next due call (also after a crash: everything due at the same instant still fires)
+\* calls of q due in lo..hi, in firing order (time, then insertion)
+RECURSIVE DueIn(_, _, _)
+DueIn(q, lo, hi) == IF lo > hi THEN <<>> ELSE SelectSeq(q, LAMBDA c : c.at = lo) \o DueIn(q, lo + 1, hi)
+
+\* fire the next due call (also after a crash: everything due in the same iteration still fires)
 FireNext ==
     /\ pc = "spin" /\ batch # <<>>
     /\ LET c == Head(batch)
            rest == Tail(batch)
+           over == LateIgnored /\ ~spinning      \* asRequired: the run is over, late events are ignored
        IN /\ fired' = fired \cup {c.lab}
           /\ CASE c.what = "timeout" ->       \* _timed_out
-                    /\ failure' = TimeoutR /\ toCall' = "called"
+                    /\ failure' = IF over THEN failure ELSE TimeoutR
+                    /\ toCall' = "called"
                     /\ running' = IF spinning THEN FALSE ELSE running
                     /\ spinning' = FALSE
                     /\ batch' = rest
-                    /\ UNCHANGED <<calls, success>>
+                    /\ UNCHANGED <<calls, success, now>>
                [] c.what \in {"ok", "err"} -> \* the Deferred fires: _got_success/_got_failure, _stop_reactor
-                    LET can == toCall = "pending" IN  \* else cancel() raises inside the callback
+                    LET can == toCall = "pending" /\ ~over IN  \* else cancel() raises inside the callback / ignored
                     /\ toCall' = IF can THEN "cancelled" ELSE toCall
                     /\ success' = IF can /\ c.what = "ok" THEN FnOut(Cur) ELSE success
                     /\ failure' = IF can /\ c.what = "err" THEN FnOut(Cur) ELSE failure
@@ -237,14 +255,21 @@ FireNext ==
                     /\ batch' = IF can THEN DropTimeout(rest) ELSE rest
                     /\ running' = IF spinning THEN FALSE ELSE running
                     /\ spinning' = FALSE
+                    /\ UNCHANGED now
                [] c.what = "stop" ->          \* reactor.stop(): the patched one crashes the reactor
                     /\ running' = FALSE
+                    /\ spinning' = IF LateIgnored THEN FALSE ELSE spinning
                     /\ batch' = rest
-                    /\ UNCHANGED <<calls, success, failure, spinning, toCall>>
+                    /\ UNCHANGED <<calls, success, failure, toCall, now>>
+               [] c.what = "busy" ->          \* a slow callback: time passes, more calls fall due in this iteration
+                    /\ now' = now + Cur.busyDt
+                    /\ batch' = rest \o DueIn(calls, now + 1, now + Cur.busyDt)
+                    /\ calls' = SelectSeq(calls, LAMBDA x : x.at > now + Cur.busyDt)
+                    /\ UNCHANGED <<success, failure, spinning, toCall, running>>
                [] OTHER ->
                     /\ batch' = rest
-                    /\ UNCHANGED <<calls, success, failure, spinning, toCall, running>>
-    /\ UNCHANGED <<scn, clr, inst, run, pc, now, readers, stopIs, sigs, junk, inRun, saved, out, inner, left,
+                    /\ UNCHANGED <<calls, success, failure, spinning, toCall, running, now>>
+    /\ UNCHANGED <<scn, clr, inst, run, pc, readers, stopIs, sigs, junk, inRun, saved, out, inner, left,
                    entry, hist>>
 
 \* reactor.run() returns
